@@ -399,4 +399,3 @@ func findMapOrdered(c *Ctx, fn *ssa.Function) []mapOrdered {
 	})
 	return out
 }
-
